@@ -506,24 +506,30 @@ func writerFieldTable(P *Program, fn *ssa.Function) map[string][2]int64 {
 // blengthRule compares, path by path, the linear form returned by BLength with
 // the cursor FastWrite returns when no direct writer is attached.
 func blengthRule(P *Program, r *Result, A *Analysis, typ string, bl, wr *ssa.Function) {
-	a := lengthPaths(P, A, bl, false)
-	b := lengthPaths(P, A, wr, true)
+	a := lengthPaths(P, A, bl, 0)
+	b := lengthPaths(P, A, wr, 0)
 	ok := len(a) > 0 && len(a) == len(b)
 	detail := ""
 	if !ok {
 		detail = fmt.Sprintf("%d path classes in BLength, %d in %s", len(a), len(b), wr.Name())
 	}
 	if ok {
-		for k, va := range a {
+		var keys []string
+		for k := range a {
+			keys = append(keys, k)
+		}
+		sort.Strings(keys)
+		for _, k := range keys {
+			va := a[k]
 			vb, has := b[k]
 			if !has {
 				ok = false
 				detail = "path class " + k + " only exists in BLength"
 				break
 			}
-			if va != vb {
+			if !va.equal(vb) {
 				ok = false
-				detail = "on path class " + k + ": BLength = " + va + " but " + wr.Name() + " advances by " + vb
+				detail = "on path class " + k + ": BLength = " + A.linString(va) + " but " + wr.Name() + " advances by " + A.linString(vb)
 				break
 			}
 		}
@@ -532,36 +538,87 @@ func blengthRule(P *Program, r *Result, A *Analysis, typ string, bl, wr *ssa.Fun
 }
 
 // lengthPaths enumerates the paths of a length-like function and renders the
-// returned value in canonical terms, keyed by the path class.
-func lengthPaths(P *Program, A *Analysis, fn *ssa.Function, writer bool) map[string]string {
+// returned value over canonical symbols, keyed by the path class. Calls to
+// integer-valued helpers of the same package are expanded in place.
+func lengthPaths(P *Program, A *Analysis, fn *ssa.Function, depth int) map[string]*Lin {
+	out := map[string]*Lin{}
+	if fn.Blocks == nil || depth > 3 {
+		return out
+	}
 	fa := A.fa(fn)
 	fa.ensureInvariants()
-	out := map[string]string{}
 	type state struct {
 		b     *ssa.BasicBlock
+		idx   int
 		sub   map[AtomID]*Lin
 		seen  map[*ssa.BasicBlock]int
 		class []string
-		iter  int
 	}
-	canon := func(l *Lin, iter int) string {
-		var parts []string
+	fork := func(st state) state {
+		ns := state{b: st.b, idx: st.idx, sub: map[AtomID]*Lin{}, seen: map[*ssa.BasicBlock]int{}, class: append([]string{}, st.class...)}
+		for k, v := range st.sub {
+			ns.sub[k] = v
+		}
+		for k, v := range st.seen {
+			ns.seen[k] = v
+		}
+		return ns
+	}
+	canonLin := func(l *Lin) *Lin {
+		res := linConst(0)
+		res.C.Set(l.C)
 		for _, id := range l.atoms() {
 			a := A.at(id)
 			name := a.Name
-			// canonical names: len(field X) ; len(key/value of iteration i)
-			if i := strings.Index(name, "len("); i >= 0 {
-				name = name[i:]
+			if !strings.HasPrefix(A.keyOf(id), "sym:") {
+				name = canonAtom(fa, a)
 			}
-			parts = append(parts, l.T[id].String()+"*"+canonAtom(fa, a))
+			res = res.add(symAtom(A, name).scale(l.T[id]))
 		}
-		sort.Strings(parts)
-		return l.C.String() + "+" + strings.Join(parts, "+")
+		return res
 	}
 	var walk func(st state)
 	n := 0
 	walk = func(st state) {
 		if n > 5000 {
+			return
+		}
+		for st.idx < len(st.b.Instrs) {
+			in := st.b.Instrs[st.idx]
+			st.idx++
+			c, ok := in.(*ssa.Call)
+			if !ok {
+				continue
+			}
+			cal := c.Common().StaticCallee()
+			if cal == nil || cal.Pkg != fn.Pkg || cal.Blocks == nil || cal == fn || !isInteger(c.Type()) || isBinaryProtocolMethod(cal) {
+				continue
+			}
+			subs := lengthPaths(P, A, cal, depth+1)
+			if len(subs) == 0 {
+				continue
+			}
+			id, has := fa.A.byKey["v:"+fa.vkey(c)]
+			if !has {
+				fa.expand(c)
+				id, has = fa.A.byKey["v:"+fa.vkey(c)]
+			}
+			if !has {
+				continue
+			}
+			var keys []string
+			for k := range subs {
+				keys = append(keys, k)
+			}
+			sort.Strings(keys)
+			for _, k := range keys {
+				ns := fork(st)
+				if k != "" {
+					ns.class = append(ns.class, strings.Split(k, ",")...)
+				}
+				ns.sub[id] = subs[k]
+				walk(ns)
+			}
 			return
 		}
 		if ret, ok := st.b.Instrs[len(st.b.Instrs)-1].(*ssa.Return); ok {
@@ -571,8 +628,7 @@ func lengthPaths(P *Program, A *Analysis, fn *ssa.Function, writer bool) map[str
 				v = v.substAll(st.sub)
 			}
 			v = substWriteResults(fa, v)
-			key := strings.Join(st.class, ",")
-			out[key] = canon(v, st.iter)
+			out[strings.Join(st.class, ",")] = canonLin(v)
 			return
 		}
 		iff, isIf := st.b.Instrs[len(st.b.Instrs)-1].(*ssa.If)
@@ -580,13 +636,8 @@ func lengthPaths(P *Program, A *Analysis, fn *ssa.Function, writer bool) map[str
 			if st.seen[s] >= 3 {
 				continue
 			}
-			ns := state{b: s, sub: map[AtomID]*Lin{}, seen: map[*ssa.BasicBlock]int{}, class: append([]string{}, st.class...), iter: st.iter}
-			for k, v := range st.sub {
-				ns.sub[k] = v
-			}
-			for k, v := range st.seen {
-				ns.seen[k] = v
-			}
+			ns := fork(st)
+			ns.b, ns.idx = s, 0
 			ns.seen[s]++
 			if isIf {
 				ns.class = append(ns.class, condClass(fn, iff.Cond, si == 0))
